@@ -634,7 +634,7 @@ FLAG_FINDING = {
     ("C06", "d_delete_interchain"): "C06-delete-interchain",
     ("C04", "d_interhub_timeout"): "C04-interhub-timeout", ("C06", "d_interhub_timeout"): "C06-interhub-timeout",
 }
-PROOF_TARGETS = ["Proofs/TxFsmProofs", "Proofs/IbtpProps", "Proofs/IbtpMonProofs", "Proofs/IbtpNotify", "Proofs/IbtpFin", "Proofs/RouterProofs"]
+PROOF_TARGETS = ["Proofs/TxFsmProofs", "Proofs/IbtpProps", "Proofs/IbtpMonProofs", "Proofs/IbtpNotify", "Proofs/IbtpFin", "Proofs/IbtpRestart", "Proofs/IbtpGArm", "Proofs/RouterProofs"]
 MODEL_TARGETS = ["TxMgr", "Interchain", "IbtpExec", "IbtpMon", "IbtpJudge"]
 
 
